@@ -54,9 +54,11 @@ def predefinedAlign (size : Nat) : Nat := max size 1
 def fmtPaddingField (offsetHexLower : String) : String := "_field_" ++ offsetHexLower
 def fmtPlaceholderFn (index : String) : String := "_vfunc_" ++ index
 def fmtVftableType (name : String) : String := name ++ "Vftable"
-def fmtRenamed (base fn : String) : String := base ++ "_" ++ fn
-def fmtExternGetter (name : String) : String := "get_" ++ name
-def fmtSizeCheck (name : String) : String := "_" ++ name ++ "_size_check"
+/-- `s.strip_prefix("r#").unwrap_or(s)`: a raw identifier without its prefix -/
+def unraw (s : String) : String := match s.toList with | 'r' :: '#' :: rest => String.ofList rest | _ => s
+def fmtRenamed (base fn : String) : String := unraw base ++ "_" ++ unraw fn
+def fmtExternGetter (name : String) : String := "get_" ++ unraw name
+def fmtSizeCheck (name : String) : String := "_" ++ unraw name ++ "_size_check"
 def vftableFieldName : String := "vftable"
 def thisArgName : String := "this"
 
